@@ -111,7 +111,7 @@ class Ctx:
 class Obligation:
     def __init__(self, oid, title, setup, run, replay, *, exact=True, functions=(), bounds="", stubs=(),
                  assumptions=(), timeout_s=1200, query_timeout_s=600, max_paths=20000, validate=None,
-                 tiers=("quick", "thorough"), degraded_models=24, expect_paths_min=1, cost=1, explore_budget_s=None):
+                 tiers=("quick", "thorough"), degraded_models=24, expect_paths_min=1, cost=1, explore_budget_s=None, tactic=None):
         self.id, self.title = oid, title
         self.setup, self.run, self.replay = setup, run, replay
         self.exact = exact
@@ -122,6 +122,7 @@ class Obligation:
         self.degraded_models = degraded_models
         self.cost = cost
         self.explore_budget_s = explore_budget_s if explore_budget_s is not None else 0.6 * timeout_s
+        self.tactic = tactic
 
 
 def load_known(prop):
@@ -173,6 +174,7 @@ def _run_obligation(args):
         # 2. symbolic exploration
         eng = Engine(timeout_ms=int(ob.query_timeout_s * 1000), seed=seed, max_paths=ob.max_paths)
         eng.deadline = time.time() + ob.explore_budget_s
+        eng.tactic = getattr(ob, "tactic", None)
         ctx = Ctx(ob, eng, known)
         w = _WORLD[0]
 
@@ -184,6 +186,7 @@ def _run_obligation(args):
             del sc.NL_LOG[:]
             sc._NL_DONE[0] = 0
             sc.NL_UF[0] = False
+            sc.DIV_WITNESS[0] = False
             inp = ob.setup(ctx)
             ob.run(ctx, inp)
         unsupported = None
